@@ -24,6 +24,7 @@ type pstage struct {
 	noCmd  bool
 	static string // a second file inside a directory output that the command leaves alone
 	skip   bool   // the output is skip-cache (kept out of the cache, e.g. a metrics file)
+	norec  bool   // the directory output is non-recursive (only the files directly inside are tracked)
 }
 
 type pipeline struct {
@@ -53,6 +54,11 @@ func genDAG(r *rng, n int, s *summary) *pipeline {
 			st.dst = st.out + "/f.txt"
 			if r.chance(1, 3) {
 				st.dst = st.out + "/deep/er/f.txt"
+			} else if r.chance(1, 3) {
+				// non-recursive (possibly at a nested path): the file written directly inside is tracked
+				// and owned, nothing below is
+				st.norec = true
+				s.count("output:non-recursive-dir")
 			}
 		} else {
 			st.out = fmt.Sprintf("o%d.txt", i)
@@ -182,7 +188,7 @@ func (st *pstage) rec(cmdSuffix string) *StageRec {
 		// a directory-valued input is declared is-dir
 		rec.In = append(rec.In, Art{Path: in})
 	}
-	rec.Out = []Art{{Path: st.out, IsDir: st.outDir, Skip: st.skip}}
+	rec.Out = []Art{{Path: st.out, IsDir: st.outDir, Skip: st.skip, NoRec: st.norec}}
 	return rec
 }
 
@@ -308,6 +314,24 @@ func onePipe(o *opts, r *rng, s *summary, i int, pl *pipeline, distinct map[stri
 				if r.chance(1, 3) {
 					c.Single = true
 				}
+			} else if len(pl.stages) >= 2 && r.chance(1, 4) {
+				// several stages named: in pipeline order (what a user who knows the pipeline types) or
+				// shuffled; with --single-stage the order given IS the order of execution
+				for _, st := range pl.stages {
+					if r.chance(2, 3) {
+						c.Targets = append(c.Targets, st.file)
+					}
+				}
+				if len(c.Targets) < 2 {
+					c.Targets = []string{pl.stages[0].file, pl.stages[len(pl.stages)-1].file}
+				}
+				if r.chance(1, 3) {
+					for i := len(c.Targets) - 1; i > 0; i-- {
+						j := r.intn(i + 1)
+						c.Targets[i], c.Targets[j] = c.Targets[j], c.Targets[i]
+					}
+				}
+				c.Single = r.chance(2, 3)
 			}
 			sp := want(18, 23, 8, 9, 13)
 			if !c.Single {
@@ -544,6 +568,23 @@ func onePipe(o *opts, r *rng, s *summary, i int, pl *pipeline, distinct map[stri
 			add(t, c.Kind+" of one stage")
 			s.count("targeted:" + c.Kind)
 		}
+	}
+	// every source edited, then all stages named in pipeline order with --single-stage: they execute in
+	// exactly that order (their file names sort differently)
+	if len(pl.stages) >= 2 {
+		version++
+		for k := range pl.sources {
+			must(os.WriteFile(filepath.Join(p.Root, pl.sources[k]), []byte(fmt.Sprintf("source%d-v%d\n", k, version)), 0o644))
+		}
+		var inOrder []string
+		for _, st := range pl.stages {
+			inOrder = append(inOrder, st.file)
+		}
+		// (no consistency claim: C09 speaks of recursive runs; with --single-stage a stage does not
+		// look at what happened upstream of it)
+		t, w = p.do(Cmd{Kind: "run", Targets: inOrder, Single: true}, sems, want(18, 23, 13), nil, nil)
+		add(t, "run --single-stage of every stage in pipeline order")
+		s.count("history:run -s all-in-order")
 	}
 	// commit a downstream target straight after a full run (its upstream stages are committed with
 	// it and their stage files written), lose every cached artifact, check the target out again
